@@ -70,7 +70,16 @@ func genLivingCase(prop, tier string, r *rand.Rand) *Case {
 			}
 			tp.given = append(tp.given, g)
 			tp.surname = append(tp.surname, s)
-			tp.p.Names = append(tp.p.Names, g+" /"+s+"/")
+			name := g + " /" + s + "/"
+			if r.IntN(5) == 0 {
+				// a name suffix is part of the full name; it is tracked like
+				// a given name
+				sfx := newTok(r, &nt)
+				name += " " + sfx
+				tp.given = append(tp.given, sfx)
+				tp.surname = append(tp.surname, s)
+			}
+			tp.p.Names = append(tp.p.Names, name)
 		}
 		tp.p.Sex = pick(r, []string{"M", "F", "U", ""})
 		tp.place = newTok(r, &nt) + "town, " + pick(r, []string{"England", "Australia", "Narnia"})
